@@ -30,7 +30,7 @@ import inspect
 from typing import Any
 
 
-def make_provider(name, subdeps, *, is_async, extra_default=None, fail=False, record=None, msg_leaf=False):
+def make_provider(name, subdeps, *, is_async, extra_default=None, fail=False, record=None, msg_leaf=False, suspend=0.0):
     """Provider returning the token (name, sorted(resolved sub-dependency values)).
     subdeps: list of (param_name, Depends object)."""
     def compute(kw):
@@ -48,6 +48,10 @@ def make_provider(name, subdeps, *, is_async, extra_default=None, fail=False, re
 
     if is_async:
         async def prov(**kw):
+            if suspend:
+                import asyncio as _a
+
+                await _a.sleep(suspend)  # a provider that really awaits (I/O): other messages run meanwhile
             return compute(kw)
     else:
         def prov(**kw):
@@ -231,3 +235,32 @@ def build_signature_fn(spec, ret_anno=None, name="sigfn"):
     fn.__signature__ = inspect.Signature(params, **kw)
     fn.__name__ = name
     return fn, calls
+
+
+# ---------------------------------------------------------------------------------------------- eager response inside a provider
+def register_guarded_actor(router, log, name="guarded"):
+    """Actor whose dependency `guard` may answer the message eagerly (script key "eager_in_dep") before the actor body runs."""
+    import json as _json
+    from datetime import timedelta as _td
+
+    seen = {}
+
+    async def guard(m: MessageDependency):
+        script = _json.loads(m.raw_payload).get("script", {})
+        action = script.get("eager_in_dep")
+        n = seen[m.key.id_] = seen.get(m.key.id_, 0) + 1
+        if action and n == 1:
+            log.add(k="dep_eager", id=m.key.id_, action=action)
+            if action in ("retry", "force_retry"):
+                await getattr(m, action)(_td(seconds=3600))
+            else:
+                await getattr(m, action)()
+            log.add(k="dep_continued", id=m.key.id_)
+        return "guard-ok"
+
+    async def body(script: dict, g: Annotated[Any, Depends(guard)], m: MessageDependency):
+        log.add(k="actor_start", id=m.key.id_, attempt=m.parameters.retries.already_tried, actor=name, guard=str(g)[:40])
+        return 1
+
+    body.__name__ = name
+    router.actor(name=name)(body)
